@@ -617,4 +617,39 @@ theorem inv_reachable {g : G} (h : Reachable g) : Inv g := by
   | init => exact inv_init
   | step _ hs ih => exact inv_step ih hs
 
+theorem readLines_own (replies rest : List Line) (hn : ∀ l ∈ replies, isNoticeLine l = false) :
+    readLines replies.length (replies ++ rest) = .got replies rest := by
+  induction replies with
+  | nil => cases rest <;> rfl
+  | cons l ls ih =>
+    have h1 : isNoticeLine l = false := hn l (by simp)
+    have h2 := ih (fun x hx => hn x (by simp [hx]))
+    simp [readLines, h1, h2]
+
+theorem sourceBashrcs_answered (items : List BashrcItem) :
+    (sourceBashrcs items).length = items.length ∧ (∀ l ∈ sourceBashrcs items, l = .next) ∨
+      BashrcLine.death ∈ sourceBashrcs items := by
+  induction items with
+  | nil => left; simp [sourceBashrcs]
+  | cons it rest ih =>
+    cases it with
+    | path st =>
+      rcases ih with ⟨h1, h2⟩ | h
+      · left; simp [sourceBashrcs, h1]; exact h2
+      · right; simp [sourceBashrcs, h]
+    | transfer st =>
+      cases st with
+      | zero =>
+        rcases ih with ⟨h1, h2⟩ | h
+        · left; simp [sourceBashrcs, h1]; exact h2
+        · right; simp [sourceBashrcs, h]
+      | succ n => right; simp [sourceBashrcs]
+    | other => right; simp [sourceBashrcs]
+
+theorem sourceBashrcs_paths (sts : List Nat) :
+    sourceBashrcs (sts.map .path) = sts.map fun _ => .next := by
+  induction sts with
+  | nil => rfl
+  | cons s rest ih => simp [sourceBashrcs, ih]
+
 end Pkgcore.C35
